@@ -10,7 +10,7 @@ use opcua::core::supported_message::SupportedMessage;
 use opcua::crypto::{CertificateStore, PrivateKey, SecurityPolicy, X509};
 use opcua::sync::RwLock;
 use opcua::types::*;
-use serde_json::{json, Value};
+use serde_json::Value;
 use std::cell::RefCell;
 use std::collections::HashMap;
 use std::sync::Arc;
@@ -324,10 +324,6 @@ pub fn put_u32(b: &mut [u8], at: usize, v: u32) {
 
 pub fn get_u32(b: &[u8], at: usize) -> u32 {
     u32::from_le_bytes([b[at], b[at + 1], b[at + 2], b[at + 3]])
-}
-
-pub fn info_json() -> Value {
-    json!({})
 }
 
 // ------------------------------------------------------------------------------------------------ crafted chunks
